@@ -146,3 +146,91 @@ impl Engine {
         self
     }
 }
+
+#[cfg(feature = "verif")]
+impl Engine {
+    /// drop a process from the cache only (the store keeps its rows)
+    pub fn verif_uncache(&self, pid: &str) {
+        self.runtime.cache().verif_uncache(pid)
+    }
+
+    /// dump of the cached (live) processes without triggering a load from the store
+    pub fn verif_live(&self) -> serde_json::Value {
+        let mut procs = Vec::new();
+        for p in self.runtime.cache().procs() {
+            let mut tasks = p.tasks();
+            tasks.sort_by_key(|t| t.timestamp);
+            let tasks: Vec<serde_json::Value> = tasks
+                .iter()
+                .map(|t| {
+                    let data: serde_json::Value = t.data().into();
+                    let mut hooks = t
+                        .hooks()
+                        .iter()
+                        .map(|(k, v)| format!("{k:?}:{}", v.len()))
+                        .collect::<Vec<_>>();
+                    hooks.sort();
+                    serde_json::json!({
+                        "tid": t.id,
+                        "nid": t.node().id(),
+                        "kind": t.node().kind().to_string(),
+                        "uses": t.node().uses(),
+                        "key": t.node().key(),
+                        "tag": t.node().tag(),
+                        "level": t.node().level,
+                        "state": t.state().to_string(),
+                        "prev": t.prev(),
+                        "data": data,
+                        "err": t.err().map(|e| serde_json::json!({"ecode": e.ecode, "message": e.message})),
+                        "start_time": t.start_time(),
+                        "end_time": t.end_time(),
+                        "timestamp": t.timestamp,
+                        "hooks": hooks,
+                    })
+                })
+                .collect();
+            let env: serde_json::Value = p.env().into();
+            procs.push(serde_json::json!({
+                "pid": p.id(),
+                "mid": p.model().id,
+                "state": p.state().to_string(),
+                "env": env,
+                "err": p.err().map(|e| serde_json::json!({"ecode": e.ecode, "message": e.message})),
+                "start_time": p.start_time(),
+                "end_time": p.end_time(),
+                "timestamp": p.timestamp(),
+                "tasks": tasks,
+            }));
+        }
+        serde_json::Value::Array(procs)
+    }
+
+    /// run one tick now (the same entry the interval timer uses)
+    pub fn verif_tick(&self) {
+        self.runtime.emitter().emit_tick()
+    }
+
+    pub fn verif_tasks(&self) -> Arc<dyn crate::DbCollection<Item = crate::data::Task>> {
+        self.runtime.store().tasks()
+    }
+
+    pub fn verif_procs(&self) -> Arc<dyn crate::DbCollection<Item = crate::data::Proc>> {
+        self.runtime.store().procs()
+    }
+
+    pub fn verif_messages(&self) -> Arc<dyn crate::DbCollection<Item = crate::data::Message>> {
+        self.runtime.store().messages()
+    }
+
+    pub fn verif_models(&self) -> Arc<dyn crate::DbCollection<Item = crate::data::Model>> {
+        self.runtime.store().models()
+    }
+
+    pub fn verif_events(&self) -> Arc<dyn crate::DbCollection<Item = crate::data::Event>> {
+        self.runtime.store().events()
+    }
+
+    pub fn verif_packages(&self) -> Arc<dyn crate::DbCollection<Item = crate::data::Package>> {
+        self.runtime.store().packages()
+    }
+}
